@@ -9,7 +9,8 @@
 EXTENDS Greedy, TLC, Json
 CONSTANTS SigLen, Tier
 
-Vals == {-16, -8, -4, 0, 4}
+\* signal values are multiples of 64 so that the repeated divisions by up to 4 stay exact (checked)
+Vals == {-16 * 64, -8 * 64, -4 * 64, 0, 4 * 64}
 Resps == { <<-4, -2, -1, -1>>, <<-1, -2, -4, 2>>, <<-2, -2, -1, 0, 1>>, <<-1, -4, 3, -1>> }
 Windows == {<<o, l>> : o \in 0..1, l \in 1..3}       \* off + la <= 4 = shortest response
 
@@ -21,8 +22,10 @@ Pick == /\ stage = "pick"
              /\ \A k \in 1..w[2] : r[w[1] + k] < 0            \* the code asserts this of its window
              /\ resp' = r /\ win' = w
         /\ sig' \in [1..SigLen -> Vals]
-        /\ stage' = "run"
-Next == Pick
+        /\ stage' = "picked"
+\* the sweeps are evaluated in a second step so that all TLC workers share the work
+Run == stage = "picked" /\ stage' = "run" /\ UNCHANGED <<sig, resp, win>>
+Next == Pick \/ Run
 Spec == Init /\ [][Next]_vars
 
 WindowNegative == stage = "run" => \A k \in 1..win[2] : resp[win[1] + k] < 0
@@ -31,6 +34,14 @@ NonNegative == stage = "run" => \A k \in 1..SigLen : Plain(sig, resp, win[1], wi
 \* export a thinned sample (every case with at least one emission when thorough; about 1/16 otherwise)
 Hash(s) == FoldLeft(LAMBDA a, x : (a * 31 + x + 17) % 1000003, 7, s)
 Interesting == LET r == Plain(sig, resp, win[1], win[2]) IN \E k \in 1..SigLen : r.input[k] > 0
-Export == (stage = "run" /\ Interesting /\ (Tier = "thorough" \/ Hash(sig) % 16 = 0)) =>
+\* every quotient taken by the plain sweep is exact (so the integer model and f64 agree bit for bit)
+RECURSIVE ExactFrom(_, _, _, _, _)
+ExactFrom(res, i, rs, off, la) ==
+  IF i + off + la > Len(res) THEN TRUE
+  ELSE LET w == Win(res, i, off, la) IN
+       IF NonNegIdx(w) # {} THEN ExactFrom(res, i + 1, rs, off, la)
+       ELSE ExactWin(w, rs, off) /\ ExactFrom(Update(res, i, Val(w, rs, off), rs), i + 1, rs, off, la)
+Exact == ExactFrom(sig, 0, resp, win[1], win[2])
+Export == (stage = "run" /\ Interesting /\ Exact /\ (Tier = "thorough" \/ Hash(sig) % 16 = 0)) =>
   PrintT(<<"REPLAY", ToJson([fam |-> "greedy", sig |-> sig, resp |-> resp, off |-> win[1], la |-> win[2]])>>)
 =============================================================================
